@@ -18,9 +18,21 @@ H = 0.01
 NT = 10
 
 
-def params_for(kind, rng, variant):
+def step_of(kinds):
+    """time step and number of steps of a problem: the dedicated kinds bring their own (see specs/OdeModel.tla ExtraLong)"""
+    return (0.5 if "soft" in kinds else 0.01), (200 if "rbv" in kinds else 10)
+
+
+def params_for(kind, rng, variant, H=0.01):
     """(m, b, k) for one equation of the given kind.  `variant` rotates through boundary values."""
     m = float(rng.choice([1.0, 0.5, 2.0, 1.7]))
+    if kind == "rbv":
+        # |b/(2m)| between 1e-5/sqrt(h) = 1e-4 and 10 (1e-10/h)^(1/3) = 0.0215 for h = 0.01
+        return m, 2 * m * [0.002, 0.01, 0.02][variant % 3], 0.0
+    if kind == "soft":
+        m = 100.0
+        w = 0.06
+        return m, 2 * 0.05 * w * m, w * w * m
     if kind == "rb0":
         return m, 0.0, 0.0
     if kind == "rbl":
@@ -43,7 +55,7 @@ def params_for(kind, rng, variant):
     return m, 2 * z * w * m, w * w * m
 
 
-def exact_history(step_terms, kinds, rf, order, ic, prm, frc, q0, mpm):
+def exact_history(step_terms, kinds, rf, order, ic, prm, frc, q0, mpm, H=0.01):
     """modal histories d, v, a (lists of mp numbers per equation) from the spec's terms"""
     mpf = mpm.mpf
     n = len(kinds)
@@ -84,27 +96,30 @@ def one_problem(job):
     kinds, rf, order, ic = problem
     rng = np.random.default_rng(seed * 100003 + pi)
     n = len(kinds)
-    prm = [params_for(kd, rng, pi + i) for i, kd in enumerate(kinds)]
+    H, NT = step_of(kinds)
+    prm = [params_for(kd, rng, pi + i, H) for i, kd in enumerate(kinds)]
     frc = rng.standard_normal((n, NT)) * rng.uniform(0.5, 2.0, (n, 1))
+    if NT > 50:
+        frc = frc * 0 + rng.standard_normal((n, 1)) + 0.2 * rng.standard_normal((n, NT))     # a sustained force: the drift must be visible
     q0 = (rng.standard_normal(n) * 1e-3, rng.standard_normal(n) * 1e-1)
     ic = tuple(bool(x) for x in icrule)            # <<d0 given, v0 given, static_ic>> as exported by the spec
-    D, Vv, Aa = exact_history(step_terms, kinds, rf, order, ic, prm, frc.tolist(), q0, mpm)
+    D, Vv, Aa = exact_history(step_terms, kinds, rf, order, ic, prm, frc.tolist(), q0, mpm, H)
     Dm = np.array([[float(x) for x in r] for r in D])
     Vm = np.array([[float(x) for x in r] for r in Vv])
     Am = np.array([[float(x) for x in r] for r in Aa])
     krf = 4.0e7
     frf = rng.standard_normal(NT)
-    loose = 2e-3 if any(kd == "rbl" for kd in kinds) else (3e-7 if any(kd in ("undn", "overn") for kd in kinds) else 1e-9)
+    loose = 2e-3 if any(kd in ("rbl", "rbv") for kd in kinds) else (3e-7 if any(kd in ("undn", "overn") for kd in kinds) else 1e-9)
     results = []
     for r in reps:
-        res = run_rep(np, ode, rng, kinds, rf, order, ic, prm, frc, q0, Dm, Vm, Am, krf, frf, r, loose)
+        res = run_rep(np, ode, rng, kinds, rf, order, ic, prm, frc, q0, Dm, Vm, Am, krf, frf, r, loose, H)
         results.append((r, res))
     return pi, problem, [list(p) for p in prm], results
 
 
-def run_rep(np, ode, rng, kinds, rf, order, ic, prm, frc, q0, Dm, Vm, Am, krf, frf, r, loose):
+def run_rep(np, ode, rng, kinds, rf, order, ic, prm, frc, q0, Dm, Vm, Am, krf, frf, r, loose, H=0.01):
     n = len(kinds)
-    isrb = [kd in ("rb0", "rbl", "rbd") for kd in kinds]
+    isrb = [kd in ("rb0", "rbl", "rbv", "rbd") for kd in kinds]
     md = np.array([p[0] for p in prm])
     bd = np.array([p[1] for p in prm])
     kd_ = np.array([p[2] for p in prm])
